@@ -19,7 +19,9 @@ impl LibCase {
     }
 }
 
-pub const KEY_POOL: &[&str] = &["a", "b", "c", "d/a", "d/b", "d/e/f", "g/a", "d/e/b", "h", "d/v1.2", "2024.01.15"];
+/// `d-x` and `d/ex/k` start with the characters of a directory (`d`, `d/e`) they are not in: a
+/// relative url computed on strings instead of path components goes wrong exactly there.
+pub const KEY_POOL: &[&str] = &["a", "b", "c", "d/a", "d/b", "d/e/f", "g/a", "d/e/b", "h", "d/v1.2", "2024.01.15", "d-x", "d/ex/k"];
 pub const MISSING: &[&str] = &["zz", "d/zz"];
 pub const EXTERNAL: &[&str] = &["https://example.com/p1", "http://example.org/a/b", "mailto:someone@example.com"];
 
